@@ -1,12 +1,8 @@
-import SqlObjVerif.Model.Graph
+import SqlObjVerif.Model.GraphTrav
 /-!
 # Lemmas for C12: frame (`Ev`), cleanliness of deleted keys (`Clean`), closure (`Reach`)
 -/
 namespace SqlObjVerif.Graph
-
-abbrev Key := Nat × Nat
-
-def Row.key (r : Row) : Key := (r.cls, r.id)
 
 def Present (db : DB) (x : Key) : Prop := ∃ r ∈ db.rows, r.key = x
 
